@@ -33,6 +33,9 @@ type readerSpec struct {
 	Chunking string `json:"chunking"`
 	N        int    `json:"n,omitempty"`
 	Cut      int    `json:"failing_cut,omitempty"`
+	// Phase (chunking "packets" only, family large): the packet boundaries are the offsets congruent to Phase modulo N
+	// (0 = the multiples of N).
+	Phase int `json:"phase,omitempty"`
 	// EOFWithData: the Read that delivers the last byte of the stream returns io.EOF together with the data
 	// (like testing/iotest.DataErrReader); otherwise io.EOF comes alone from the following Read.
 	EOFWithData bool `json:"eof_with_data"`
@@ -51,6 +54,9 @@ func (s readerSpec) chunkName() string {
 		}
 		return fmt.Sprintf("at most %d bytes per Read", s.N)
 	case "packets":
+		if s.Phase != 0 {
+			return fmt.Sprintf("packets of %d bytes, the first one %d bytes (no Read crosses an offset congruent to %d modulo %d)", s.N, s.Phase, s.Phase, s.N)
+		}
 		return fmt.Sprintf("packets of %d bytes (no Read crosses a multiple of %d)", s.N, s.N)
 	default:
 		return fmt.Sprintf("two pieces cut at offset %d", s.Cut)
@@ -74,6 +80,9 @@ func (s readerSpec) String() string {
 }
 
 func (s readerSpec) id() string {
+	if s.Phase != 0 {
+		return fmt.Sprintf("%s%d+%d/eof%v/empty%d", s.Chunking, s.N, s.Phase, s.EOFWithData, s.Empty)
+	}
 	return fmt.Sprintf("%s%d/eof%v/empty%d", s.Chunking, s.N, s.EOFWithData, s.Empty)
 }
 
@@ -122,7 +131,8 @@ func (r *modelReader) Read(p []byte) (int, error) {
 	case "cap":
 		lim = r.pos + r.spec.N
 	case "packets":
-		lim = (r.pos/r.spec.N + 1) * r.spec.N
+		// the next offset above pos that is congruent to Phase modulo N (0 <= Phase < N)
+		lim = r.pos + r.spec.N - (r.pos+r.spec.N-r.spec.Phase%r.spec.N)%r.spec.N
 	case "two-pieces":
 		if r.pos < r.cut {
 			lim = r.cut
@@ -316,6 +326,14 @@ func checkReaders(c *hl.Ctx, cs *caseT, variants []variant) {
 					sp = min
 					fld, det, _ = demuxCheck(newModelReader(f.data, sp, sp.Cut), cs, bodies)
 				}
+				needs := ""
+				if cs.Family == "large" {
+					// smallest distinguishing feature: does the failure need a body above 65536 bytes?
+					var suffix string
+					if suffix, needs = largeNeeded(c, cs, f.src, sp); suffix != "" {
+						key += suffix
+					}
+				}
 				also := ""
 				if len(passing) > 0 {
 					also = " (and from: " + strings.Join(passing, "; ") + ")"
@@ -324,7 +342,7 @@ func checkReaders(c *hl.Ctx, cs *caseT, variants []variant) {
 				if sp.Chunking == "two-pieces" {
 					where = fmt.Sprintf(" (the cut lies inside %s)", flvref.FieldAt(sizes, sp.Cut))
 				}
-				c.Violation("segmentation/"+key, fmt.Sprintf("file %s for %s (%d bytes) is read back correctly from a reader that returns everything asked for%s, but not from a reader that delivers the same bytes as: %s%s. First wrong result: %s: %s", who, desc, len(f.data), also, sp, where, fld, det), &cc)
+				c.Violation("segmentation/"+key, fmt.Sprintf("file %s for %s (%d bytes) is read back correctly from a reader that returns everything asked for%s, but not from a reader that delivers the same bytes as: %s%s. First wrong result: %s: %s%s", who, desc, len(f.data), also, sp, where, fld, det, needs), &cc)
 				break // further cuts of a failing variant add nothing
 			}
 			if ok && n > 0 && f.src == "lib" {
